@@ -1,7 +1,11 @@
 package harness
 
 import (
+	"time"
+
 	"vsim/sim"
+
+	rt "verifsimrt"
 )
 
 // ---- C03: acknowledged uploads survive graceful shutdown and committed epochs ----
@@ -20,11 +24,45 @@ func ackedUploads(m *storeModel, limit int) []*upload {
 // checkAckedReadable restarts over media m and requires every upload in
 // acked that is certainly not evicted (allocation count at the probe <=
 // count at its invocation + old_blocks) to be readable with identical bytes.
+//
+// Drawn from the crash tape: before that, zero to two further lifetimes that
+// start up, stay idle (or only let time pass) and shut down gracefully - the
+// state they write must still describe the restored blocks - and, in the
+// probing lifetime, a few fresh uploads before the reads: they must go to
+// free space (an overwritten object shows as an integrity error on a medium
+// that lost nothing, as wrong bytes, or as NOT_FOUND within the bound).
 func checkAckedReadable(c *sim.RunCtx, pp *persistPlan, m *media, model *storeModel, acked []*upload, baseAllocs int, class, what string, discards func() bool) {
 	O := pp.cfg.Old
+	ct := c.T.Crash
+	for cycles := []int{0, 0, 1, 2}[ct.Choose(4)]; cycles > 0 && !c.Failed(); cycles-- {
+		wait := ct.Chance(1, 2)
+		lt := runLifetime(c, pp, m, &lifetimeOpts{proc: 8, baseAllocs: baseAllocs, model: model,
+			script: func(lt *lifetime) {
+				e := lt.w.e
+				if wait {
+					_, ch := e.clock.NewTimer(2*pp.cfg.MinEpoch + time.Second)
+					rt.Recv(ch)
+				}
+				e.shutdownSeq = lt.w.s.Steps
+				e.group.cancel()
+				lt.w.s.WaitUntil("syncer routine returned", func() bool { return e.routineReturned })
+			}})
+		if c.Failed() || lt.w == nil || lt.final == nil {
+			return
+		}
+		c.Count("probe_idle_lifetime_before_probe", 1)
+		m = crashMedia(c, pp.cfg, lt.final, sim.CrashKeepAll, sim.CrashKeepAll, sim.CrashKeepAll)
+		baseAllocs = lt.final.Allocs
+	}
+	fresh := ct.Choose(4)
 	runLifetime(c, pp, m, &lifetimeOpts{proc: 9, baseAllocs: baseAllocs, model: model,
 		script: func(lt *lifetime) {
 			w := lt.w
+			for i := 0; i < fresh && !c.Failed(); i++ {
+				oi := pp.canon[ct.Choose(len(pp.objs))]
+				w.exec(&storeOp{Kind: opPut, Obj: oi, Inst: pp.insts[ct.Choose(len(pp.insts))], Ctor: ctorSlice, Pad: ct.Choose(max(pp.cfg.BlockSize()-24, 1))})
+				c.Count("probe_fresh_upload_before_probe", 1)
+			}
 			seen := map[string]bool{}
 			// newest first: probing refreshes old objects, which rotates blocks
 			for i := len(acked) - 1; i >= 0; i-- {
